@@ -21,7 +21,7 @@ use std::collections::{BTreeMap, BTreeSet, HashSet};
 use std::sync::atomic::{AtomicBool, AtomicU64, Ordering};
 use std::sync::Mutex;
 use surf_n_term::{
-    Image, ImageHandler, KittyImageHandler, Position, Size, SurfaceOwned, TerminalEvent, RGBA,
+    Image, ImageHandler, KittyImageHandler, Position, Shape, Size, SurfaceOwned, TerminalEvent, RGBA,
 };
 
 // --------------------------------------------------------------------------------------------
@@ -108,6 +108,43 @@ fn history_images() -> Vec<Img> {
     v
 }
 
+/// `h x w` view with arbitrary strides over a shared buffer of pixels `first..first+len`
+fn laid_out(name: &str, first: usize, len: usize, h: usize, w: usize, start: usize, row_stride: usize, col_stride: usize) -> Img {
+    let buf: Vec<[u8; 4]> = (0..len).map(|i| pixel(first + i)).collect();
+    let data: std::sync::Arc<[RGBA]> = buf.iter().map(|[r, g, b, a]| RGBA::new(*r, *g, *b, *a)).collect();
+    let end = if h == 0 || w == 0 { start } else { start + (h - 1) * row_stride + (w - 1) * col_stride + 1 };
+    assert!(end <= len);
+    let mut px = vec![];
+    for r in 0..h {
+        for c in 0..w {
+            px.push(buf[start + r * row_stride + c * col_stride]);
+        }
+    }
+    let shape = Shape { start, end, width: w, height: h, row_stride, col_stride };
+    Img { name: name.into(), h, w, px, image: Image::from_parts(data, shape), content: 0 }
+}
+
+/// Images that differ in how the same pixels are laid out in memory: row-major, column-major (transposed
+/// views), windows with a gap between rows, and re-allocated copies of what a viewer sees of them.
+fn layout_images() -> Vec<Img> {
+    let mut v = vec![
+        laid_out("S", 300, 4, 2, 2, 0, 2, 1),   // 2x2 row-major
+        laid_out("St", 300, 4, 2, 2, 0, 1, 2),  // its transpose: same buffer, other picture
+        laid_out("P", 310, 6, 2, 3, 0, 3, 1),   // 2x3 row-major
+        laid_out("Pt", 310, 6, 3, 2, 0, 1, 3),  // 3x2 transpose of P
+        laid_out("Pr", 310, 6, 3, 2, 0, 2, 1),  // the same buffer read as 3x2 row-major
+        laid_out("W", 320, 12, 3, 2, 1, 4, 1),  // 3x2 window of a 3x4 buffer (gap between rows)
+        laid_out("Wt", 320, 12, 2, 3, 1, 1, 4), // transposed window
+    ];
+    // re-allocated row-major copies of what is seen through the views above
+    for k in [1usize, 3, 5, 6] {
+        let src = v[k].clone();
+        v.push(Img { name: format!("{}copy", src.name), h: src.h, w: src.w, image: owned(src.h, src.w, &src.px), px: src.px, content: 0 });
+    }
+    assign_contents(&mut v);
+    v
+}
+
 const POSITIONS: [(usize, usize); 4] = [(0, 0), (0, 1), (1, 0), (65535, 65535)];
 
 // --------------------------------------------------------------------------------------------
@@ -139,6 +176,8 @@ enum Op {
 /// What the probe pass learned from the handler's own output: image ids and placement ids.
 #[derive(Clone, Default)]
 struct Env {
+    /// "history" or "layout": which image set `imgs` is
+    set: &'static str,
     imgs: Vec<Img>,
     id_of: Vec<Option<u64>>,
     pid_of: Vec<Option<u64>>,
@@ -222,7 +261,7 @@ fn alphabet(env: &Env) -> Vec<Op> {
     // OK responses (no state change expected): a known pair, a known id, unknown ones
     ops.push(Op::Resp { id: IdRef::Img(0), pl: PlRef::Pos(1), error: false });
     ops.push(Op::Resp { id: IdRef::Img(1), pl: PlRef::Pos(0), error: false });
-    ops.push(Op::Resp { id: IdRef::Img(6), pl: PlRef::Absent, error: false });
+    ops.push(Op::Resp { id: IdRef::Img(n - 1), pl: PlRef::Absent, error: false });
     ops.push(Op::Resp { id: IdRef::Unknown, pl: PlRef::Unknown, error: false });
     ops.push(Op::Other);
     ops
@@ -697,12 +736,23 @@ fn first_cmd(bytes: &[u8], action: u8) -> Option<Cmd> {
     None
 }
 
-fn probe(imgs: Vec<Img>, viol: &Violations) -> Env {
-    let mut env = Env { id_of: vec![None; imgs.len()], pid_of: vec![None; POSITIONS.len()], imgs, ..Default::default() };
-    let w = |what: &str, i: usize, p: usize| json!({"sub": "probe", "what": what, "img": env_name(i), "pos": [POSITIONS[p].0, POSITIONS[p].1]});
-    fn env_name(i: usize) -> String {
-        ["A", "B", "C", "D", "E", "F", "G"][i].to_string()
+fn imgs_names(imgs: &[Img]) -> Vec<String> {
+    imgs.iter().map(|i| i.name.clone()).collect()
+}
+
+fn image_set(name: &str) -> (&'static str, Vec<Img>) {
+    if name == "layout" {
+        ("layout", layout_images())
+    } else {
+        ("history", history_images())
     }
+}
+
+fn probe(set: &str, viol: &Violations) -> Env {
+    let (set, imgs) = image_set(set);
+    let mut env = Env { set, id_of: vec![None; imgs.len()], pid_of: vec![None; POSITIONS.len()], imgs, ..Default::default() };
+    let names: Vec<String> = imgs_names(&env.imgs);
+    let w = |what: &str, i: usize, p: usize| json!({"sub": "probe", "images": set, "what": what, "img": names[i], "pos": [POSITIONS[p].0, POSITIONS[p].1]});
     for (i, im) in env.imgs.iter().enumerate() {
         for (p, pos) in POSITIONS.iter().enumerate() {
             // ids as used by erase (works for the empty image too) and by draw
@@ -797,7 +847,7 @@ fn run_history(env: &Env, quiet: bool, hist: &[Op]) -> (World, Vec<Finding>, boo
 }
 
 fn history_witness(env: &Env, quiet: bool, hist: &[Op]) -> Value {
-    json!({"sub": "history", "quiet": quiet, "ops": hist.iter().map(|o| env.op_json(o)).collect::<Vec<_>>()})
+    json!({"sub": "history", "images": env.set, "quiet": quiet, "ops": hist.iter().map(|o| env.op_json(o)).collect::<Vec<_>>()})
 }
 
 fn explore(ctx: &Ctx, env: &Env, ops: &[Op], quiet: bool, depth: usize, dedup: bool, viol: &Violations, samples: &Samples, cnt: &Counters) -> bfs::BfsStats {
@@ -841,7 +891,7 @@ const MINI: [Op; 6] = [Op::Draw(0, 1), Op::Draw(0, 1), Op::Draw(0, 2), Op::Erase
 fn payload_case(h: usize, w: usize, px: Vec<[u8; 4]>) -> (Env, Vec<(usize, Finding)>, u64) {
     let mut imgs = vec![Img { name: "X".into(), h, w, image: owned(h, w, &px), px, content: 0 }];
     assign_contents(&mut imgs);
-    let env = Env { id_of: vec![None], pid_of: vec![None; POSITIONS.len()], imgs, unknown_id: 1, unknown_pid: 1 };
+    let env = Env { set: "payload", id_of: vec![None], pid_of: vec![None; POSITIONS.len()], imgs, unknown_id: 1, unknown_pid: 1 };
     let mut world = World::new(false);
     let mut out = vec![];
     let mut sig = 0u64;
@@ -889,8 +939,10 @@ pub fn run(ctx: &Ctx) -> Result<Report, String> {
         q_deviation: AtomicBool::new(false),
         transmissions: AtomicU64::new(0),
     };
-    let env = probe(history_images(), &viol);
+    let env = probe("history", &viol);
     let ops = alphabet(&env);
+    let layout_env = probe("layout", &viol);
+    let layout_ops: Vec<Op> = alphabet(&layout_env).into_iter().filter(|o| !matches!(o, Op::Draw(_, 3) | Op::EraseAt(_, 3) | Op::Resp { pl: PlRef::Pos(3), .. })).collect();
 
     // ---- histories
     let mut r = Report::new("model_checking");
@@ -912,6 +964,20 @@ pub fn run(ctx: &Ctx) -> Result<Report, String> {
         parts.push(json!({
             "handler": if quiet { "KittyImageHandler::new().quiet()" } else { "KittyImageHandler::new()" },
             "depth": depth, "deduplicated": dedup, "states": st.states, "transitions": st.transitions,
+            "levels": st.levels, "pruned": st.pruned, "depth_completed": st.max_depth, "capped": st.capped,
+        }));
+    }
+
+    // ---- memory layouts: every history of two operations (three in the thorough tier) over the layout image set
+    {
+        let depth = ctx.tier.pick(2, 3);
+        let st = explore(ctx, &layout_env, &layout_ops, false, depth, false, &viol, &samples, &cnt);
+        states += st.states;
+        transitions += st.transitions;
+        capped |= st.capped;
+        parts.push(json!({
+            "handler": "KittyImageHandler::new()", "images": "layout set", "alphabet_size": layout_ops.len(),
+            "depth": depth, "deduplicated": false, "states": st.states, "transitions": st.transitions,
             "levels": st.levels, "pruned": st.pruned, "depth_completed": st.max_depth, "capped": st.capped,
         }));
     }
@@ -983,6 +1049,7 @@ pub fn run(ctx: &Ctx) -> Result<Report, String> {
         .set("alphabet_size", ops.len())
         .set("alphabet", "28 draws (7 images x 4 cells), 28 erase(Some), 7 erase(None), 35 error responses (image x {no placement, 4 cells}), 3 error responses with unknown id / placement, 4 OK responses, 1 unrelated event")
         .set("images", env.imgs.iter().map(|i| json!({"name": i.name, "h": i.h, "w": i.w, "content_class": i.content})).collect::<Vec<_>>())
+        .set("layout_images", layout_env.imgs.iter().map(|i| { let s = surf_n_term::Surface::shape(&i.image); json!({"name": i.name, "h": i.h, "w": i.w, "content_class": i.content, "start": s.start, "row_stride": s.row_stride, "col_stride": s.col_stride}) }).collect::<Vec<_>>())
         .set("learned_image_ids", env.imgs.iter().zip(&env.id_of).map(|(i, id)| json!([i.name, id])).collect::<Vec<_>>())
         .set("learned_placement_ids", POSITIONS.iter().zip(&env.pid_of).map(|(p, id)| json!([[p.0, p.1], id])).collect::<Vec<_>>())
         .set("history_spaces", parts)
@@ -1026,7 +1093,7 @@ pub fn replay(w: &Value) -> Result<(bool, String), String> {
     match w["sub"].as_str().ok_or("sub")? {
         "history" => {
             let dummy = Violations::new();
-            let env = probe(history_images(), &dummy);
+            let env = probe(w["images"].as_str().unwrap_or("history"), &dummy);
             let quiet = w["quiet"].as_bool().unwrap_or(false);
             let ops: Vec<Op> = w["ops"].as_array().ok_or("ops")?.iter().map(|o| env.op_from_json(o)).collect::<Result<_, _>>()?;
             let mut world = World::new(quiet);
@@ -1038,7 +1105,7 @@ pub fn replay(w: &Value) -> Result<(bool, String), String> {
         }
         "probe" => {
             let v = Violations::new();
-            let _ = probe(history_images(), &v);
+            let _ = probe(w["images"].as_str().unwrap_or("history"), &v);
             for x in v.into_vec() {
                 bad = true;
                 text.push_str(&format!("VIOLATION [{}]: {}\n", x.key, x.what));
@@ -1055,7 +1122,7 @@ pub fn replay(w: &Value) -> Result<(bool, String), String> {
             };
             let mut imgs = vec![Img { name: "X".into(), h, w: wd, image: owned(h, wd, &px), px, content: 0 }];
             assign_contents(&mut imgs);
-            let env = Env { id_of: vec![None], pid_of: vec![None; POSITIONS.len()], imgs, unknown_id: 1, unknown_pid: 1 };
+            let env = Env { set: "payload", id_of: vec![None], pid_of: vec![None; POSITIONS.len()], imgs, unknown_id: 1, unknown_pid: 1 };
             let mut world = World::new(false);
             for (n, op) in MINI.iter().enumerate() {
                 let f: Vec<Finding> = world.apply(&env, op).into_iter().filter(|f| !f.key.contains("p0-unspecified")).collect();
